@@ -411,7 +411,9 @@ Step ==
            sc   == IF e.e = "sprout" THEN SproutClauses(s2, e) ELSE {}
            q    == Post(s2, e)
            idle == IF e.e = "gsc" /\ e.by = "step" /\ s2.cfg.idlecheck = 1 /\ sn.refused = 0 /\ IdleMetaepoch(q.st)
-                   THEN {IF AllActiveWereAsleep(q.st) THEN "C18_IdleAllAsleep" ELSE "C18_NoIdleMetaepoch"} ELSE {}
+                   THEN {IF AllActiveWereAsleep(q.st) THEN "C18_IdleAllAsleep"
+                         ELSE IF AllAwakeRanWithoutChange(q.st) THEN "C18_IdleConverged"
+                         ELSE "C18_NoIdleMetaepoch"} ELSE {}
            endc == IF e.e = "end" /\ ~C05_CounterEqualsPerformed([s2 EXCEPT !.pc = "done"]) THEN {"C05_CounterEqualsPerformed"} ELSE {}
            hibc == IF e.e = "gsc" /\ e.by = "run" /\ ~C18_HibIffNoSproutInLastRound(s2)
                    THEN {"C18_HibIffNoSproutInLastRound"} ELSE {}
